@@ -128,6 +128,11 @@ func vpH_C05_refcount() {
 	_, joined := nd.gs.mesh[vpT0]
 	vpAssert(joined == announced1, "the router has joined the topic exactly while interest is announced")
 	vpAssert(len(ps.mySubs[vpT0]) == subs2 && ps.myRelays[vpT0] == rel2, "reference counts are exact")
+	// representation invariant the arbitrary pre-state relies on (hello packets and retries go by KEY presence): an entry
+	// exists exactly while its count is positive - preserved by every step, hence by histories of any length
+	_, relKey := ps.myRelays[vpT0]
+	_, subKey := ps.mySubs[vpT0]
+	vpAssert(relKey == (rel2 > 0) && subKey == (subs2 > 0), "no zero-count entry is left behind in the relay / subscription tables (a later hello packet or retry would announce a topic the node no longer holds)")
 	// the hello packet sent on a new stream lists exactly the announced topics
 	hello := ps.getHelloPacket()
 	h0, h1 := 0, 0
@@ -280,3 +285,25 @@ func vpStreamChurn(router string) {
 }
 func vpH_C05_stream_churn_fs() { vpStreamChurn("floodsub") }
 func vpH_C05_stream_churn_gs() { vpStreamChurn("gossipsub") }
+
+// remote_view_scored: interest announcements are bookkeeping, not payload: under gossipsub with scoring they are applied
+// whatever the announcing peer's score (also below the graylist threshold, where its payload and control are ignored)
+// and whether or not it is a direct peer; a peer that recovers its score does not announce again.
+func vpH_C05_remote_view_scored() {
+	w := vpNewWorld(vpWorldCfg{P: 2, params: vpSmallParams(), scoring: true, direct: true, symThresholds: true, noFanout: true})
+	ps := w.n.ps
+	i := vpInt("peer", 0, w.P-1)
+	vpAssume(w.up[i])
+	p := w.peers[i]
+	sub := vpBool("subscribe")
+	other := w.peers[1-i]
+	_, otherBefore := ps.topics[vpT0][other]
+	ps.handleIncomingRPC(vpSubRPC(p, vpT0, sub))
+	_, now := ps.topics[vpT0][p]
+	_, otherNow := ps.topics[vpT0][other]
+	vpAssert(now == sub, "topic membership follows the peer's last announcement whatever its score")
+	vpAssert(otherNow == otherBefore, "other peers are untouched")
+	gray := !w.direct[i] && w.score[i] < w.n.gs.graylistThreshold
+	vpCover(gray && sub && !w.inTopic[i], "SUBSCRIBE from a graylisted peer is applied")
+	vpCover(gray && !sub && w.inTopic[i], "UNSUBSCRIBE from a graylisted peer is applied")
+}
